@@ -19,11 +19,17 @@ import (
 // c33policy: how the scripted gateway answers keep-alive pings (PINGREQ without client ID).
 // Waking pings (with client ID) and everything else are answered at once.
 type c33policy struct {
-	kind  string // "instant", "delay", "drop-first"
-	delay time.Duration
+	kind      string // "instant", "delay", "drop-first"
+	delay     time.Duration
+	discDelay time.Duration // the reply to a plain DISCONNECT is sent that late
 }
 
 func (p c33policy) String() string {
+	if p.discDelay > 0 {
+		q := p
+		q.discDelay = 0
+		return q.String() + fmt.Sprintf(", DISCONNECT answered %v late", p.discDelay)
+	}
 	if p.kind == "delay" {
 		return fmt.Sprintf("keep-alive PINGRESP %v late", p.delay)
 	}
@@ -63,6 +69,9 @@ func TestC33(t *testing.T) {
 		case 2:
 			pol = c33policy{kind: "drop-first"}
 		}
+		if rng.Intn(3) == 0 {
+			pol.discDelay = []time.Duration{RD / 2, RD + RD/2}[rng.Intn(2)]
+		}
 		var steps []c33step
 		for k := 1 + rng.Intn(4); k > 0; k-- {
 			st := c33step{tick: 1 + rng.Intn(3)}
@@ -93,6 +102,10 @@ func TestC33(t *testing.T) {
 			var mu sync.Mutex
 			pendingFirst := false
 			g := world.NewGwPeer(tr, 0, func(g *world.GwPeer, p *snref.Pkt, raw []byte) {
+				if p != nil && p.Type == snref.DISCONNECT && !p.HasDur && pol.discDelay > 0 {
+					g.SendAfter(pol.discDelay, snref.Disconnect())
+					return
+				}
 				if p != nil && p.Type == snref.PINGREQ && len(p.ClientID) == 0 {
 					switch pol.kind {
 					case "delay":
@@ -175,10 +188,24 @@ func TestC33(t *testing.T) {
 			tr.Add(0, world.Note, nil, "teardown")
 			done := make(chan struct{})
 			go func() { cl.Close(); close(done) }()
-			time.Sleep(5 * time.Second)
+			closed := false
+			for i := 0; i < 100 && !closed; i++ { // Close() sends DISCONNECT and may wait (RetryCount+1) x RetryDelay for the reply
+				synctest.Wait()
+				select {
+				case <-done:
+					closed = true
+				default:
+					time.Sleep(time.Second)
+				}
+			}
 			g.Close()
 			synctest.Wait()
 			evs = tr.Events()
+			if !closed {
+				c.Violation("call-hangs|Close", "Close() did not return within 100 virtual seconds", map[string]interface{}{"case": c.Desc, "trace": world.Strings(evs, 160)})
+				c.MarkDone()
+				c.R.ExitNow()
+			}
 		})
 		witness := map[string]interface{}{"case": c.Desc, "trace": world.Strings(evs, 160)}
 		if hung != "" {
@@ -265,8 +292,20 @@ func TestC33(t *testing.T) {
 			}
 		}
 		// (a) while active and pings are answered at once: a PINGREQ at least every KeepAlive
-		if pol.kind == "instant" && hung == "" {
+		prompt := pol.kind == "instant" || (pol.kind == "delay" && pol.delay < K) || (pol.kind == "drop-first" && RD < K)
+		if prompt && hung == "" {
 			for _, w := range active {
+				// an explicit Ping() shares its exchange with the keep-alive loop (a tick during it sends
+				// nothing of its own), which shifts the pattern: such windows are not judged for spacing
+				explicit := false
+				for _, e := range evs {
+					if e.Kind == world.Call && strings.HasSuffix(e.Note, " Ping") && e.T >= w.from && e.T <= w.to {
+						explicit = true
+					}
+				}
+				if explicit {
+					continue
+				}
 				checked++
 				last := w.from
 				for _, pt := range pings {
@@ -292,5 +331,5 @@ func TestC33(t *testing.T) {
 			r.Sample(map[string]interface{}{"case": c.Desc, "keepalive_pings_at": fmt.Sprint(pings), "trace_head": world.Strings(evs, 30)})
 		}
 	})
-	r.Finish("real client library with KeepAlive 2/5/60 s (RetryDelay 1/10 s, RetryCount 2) against a scripted gateway in virtual time. The gateway answers keep-alive pings (PINGREQ without client ID) at once, late (RetryDelay/2, just before the retransmission, after it, 0.5 s) or only on retransmission; everything else at once. Programs: 1-4 API calls (Sleep 1 s / KeepAlive / 3 KeepAlive / RetryDelay+1 s followed by Connect or by a second Sleep and Connect; Publish QoS 1; Subscribe; Ping; Disconnect) placed at offsets {-1 ms, 0, +1 ms, RetryDelay/2, RetryDelay, RetryDelay+1 ms, KeepAlive/2, half and whole PINGRESP delay} around the 1st-3rd expected keep-alive tick after the last activation; then two more periods. Oracle from the wire: (a) with prompt PINGRESPs, while active (CONNACK .. the client's DISCONNECT) consecutive PINGREQs are at most KeepAlive apart, incl. the first and the last gap; (b) no PINGREQ without client ID strictly inside an asleep window (gateway's DISCONNECT reply .. next CONNECT) or a disconnected one, retransmissions included; (c) no API call fails or hangs, since every ping is answered within the retry budget. Same-instant ties are not judged.", nil)
+	r.Finish("real client library with KeepAlive 2/5/60 s (RetryDelay 1/10 s, RetryCount 2) against a scripted gateway in virtual time. The gateway answers keep-alive pings (PINGREQ without client ID) at once, late (RetryDelay/2, just before the retransmission, after it, 0.5 s) or only on retransmission; a plain DISCONNECT at once or RetryDelay/2 or 1.5 RetryDelay late, everything else at once. Programs: 1-4 API calls (Sleep 1 s / KeepAlive / 3 KeepAlive / RetryDelay+1 s followed by Connect or by a second Sleep and Connect; Publish QoS 1; Subscribe; Ping; Disconnect) placed at offsets {-1 ms, 0, +1 ms, RetryDelay/2, RetryDelay, RetryDelay+1 ms, KeepAlive/2, half and whole PINGRESP delay} around the 1st-3rd expected keep-alive tick after the last activation; then two more periods. Oracle from the wire: (a) whenever every keep-alive exchange is over before the next tick (PINGRESP at once, or later than that but within KeepAlive), while active (CONNACK .. the client's DISCONNECT) consecutive PINGREQs are at most KeepAlive apart, incl. the first and the last gap; (b) no PINGREQ without client ID strictly inside an asleep window (gateway's DISCONNECT reply .. next CONNECT) or a disconnected one, retransmissions included; (c) no API call fails or hangs, since every ping is answered within the retry budget. Same-instant ties are not judged.", nil)
 }
